@@ -101,8 +101,9 @@ impl ClientHello {
 
 impl Default for ClientHello {
     fn default() -> Self {
-        const CAPABILITIES: &[Capability] =
-            &[Capability::Base(Base::V1_0), Capability::Base(Base::V1_1)];
+        // only end-of-message framing is implemented, so `:base:1.1` (which mandates chunked
+        // framing once both peers advertise it) must not be advertised
+        const CAPABILITIES: &[Capability] = &[Capability::Base(Base::V1_0)];
         Self::new(CAPABILITIES)
     }
 }
